@@ -364,11 +364,11 @@ fn check_shape(shape: &[usize]) -> ShapeResult {
             let got = catch(|| arr.get_axis(Axis(a), pos).is_some());
             match got {
                 Err(p) => {
-                    let class = if a >= d { "axis-out-of-range" } else { "pos-out-of-range" };
+                    let class = if a >= d { "axis-out-of-range" } else if in_range { "in-range" } else { "pos-out-of-range" };
                     res.v(
                         shape,
                         &format!("get_axis-panic|{class}|{}", panic_class(&p)),
-                        format!("get_axis(Axis({a}), {pos}) on shape {shape:?} panicked instead of returning None: {p}"),
+                        format!("get_axis(Axis({a}), {pos}) on shape {shape:?} panicked instead of returning {}: {p}", if in_range { "a view" } else { "None" }),
                         ctx.clone(),
                     );
                     continue;
@@ -496,8 +496,9 @@ fn check_shape(shape: &[usize]) -> ShapeResult {
             let pos = *pos;
             let mut idx = vec![0usize; d];
             idx[a] = pos;
-            let first = reference.get(&idx);
-            d == 1 || view.iter().next().copied() == Some(first)
+            // (an array without elements has empty views)
+            let first = if cells == 0 { None } else { Some(reference.get(&idx)) };
+            d == 1 || view.iter().next().copied() == first
         };
         protocol_adaptors("axis_iter", || arr.iter_axis(Axis(a)), &expect, same_view, &mut res, shape, &ctx);
         protocol(
@@ -508,12 +509,12 @@ fn check_shape(shape: &[usize]) -> ShapeResult {
                 // identify the view by its first element: flat position of (0,..,pos,..,0)
                 let mut idx = vec![0usize; d];
                 idx[a] = pos;
-                let first = reference.get(&idx);
+                let first = if cells == 0 { None } else { Some(reference.get(&idx)) };
                 if d == 1 {
                     // 0-dimensional view: iterating is checked separately; compare debug data head
                     true
                 } else {
-                    view.iter().next().copied() == Some(first)
+                    view.iter().next().copied() == first
                 }
             },
             &mut res,
@@ -699,14 +700,34 @@ fn check_api(shape: &[usize]) -> Result<(), String> {
             }
         }
     }
+    // coordinates at the limits of the integer type: out of range, not an overflow
+    for a_ in 0..d {
+        for huge in [1usize << 31, 1 << 32, 1 << 62, 1 << 63, usize::MAX / 3 + 1, usize::MAX - 1, usize::MAX] {
+            for others in [0usize, 1] {
+                let mut idx: Vec<usize> = shape.iter().map(|n| others.min(n - 1)).collect();
+                idx[a_] = huge;
+                let (a4, i4) = (a.clone(), idx.clone());
+                match catch(move || (a4.get(&i4).is_some(), a4.clone().get_mut(&i4).is_some())) {
+                    Ok((false, false)) => {}
+                    other => return Err(format!("get / get_mut({idx:?}) on shape {shape:?}: {other:?}, expected None from both")),
+                }
+                let a5 = a.clone();
+                if let Err(p) = catch(move || a5.get_axis(Axis(a_), huge).is_some()).and_then(|some| if some { Err("Some".to_string()) } else { Ok(()) }) {
+                    return Err(format!("get_axis(Axis({a_}), {huge}) on shape {shape:?}: {p}, expected None"));
+                }
+            }
+        }
+    }
     if m.get_mut(vec![0usize; d + 1]).is_some() || (d > 0 && m.get_mut(vec![0usize; d - 1]).is_some()) {
         return Err("get_mut accepts an index of the wrong length".into());
     }
     // sums of arrays with negative, infinite and NaN entries are what adding the views by hand gives
     let odd_values = [-2.5f64, 3.0, f64::NEG_INFINITY, -0.0, 1.0, f64::NAN, -7.0, 2.0];
+    let tiny_values = [1e-16f64, 1e-20, 5e-324, 1e-300, 2.5e-16, 0.0, 1e-17];
     let odd: Array<f64> = Array::new((0..cells).map(|f| odd_values[f % odd_values.len()]).collect::<Vec<_>>(), shape.to_vec()).map_err(|e| format!("new: {e}"))?;
     let negative: Array<f64> = Array::new((0..cells).map(|f| -(f as f64) - 0.5).collect::<Vec<_>>(), shape.to_vec()).map_err(|e| format!("new: {e}"))?;
-    for arr in [&odd, &negative] {
+    let tiny: Array<f64> = Array::new((0..cells).map(|f| tiny_values[f % tiny_values.len()]).collect::<Vec<_>>(), shape.to_vec()).map_err(|e| format!("new: {e}"))?;
+    for arr in [&odd, &negative, &tiny] {
         for a_ in 0..d {
             let s = arr.sum(Axis(a_));
             let mut by_hand = vec![0.0f64; cells / shape[a_]];
@@ -874,12 +895,15 @@ pub fn run(tier: Tier) -> i32 {
             }
         }
     }
+    // arrays without elements: an axis of length zero next to others (the statement speaks of arrays of
+    // every shape; every in-range request still answers, with views and sums that are empty)
+    shp.extend([vec![0usize], vec![0, 2], vec![2, 0], vec![0, 0], vec![1, 0], vec![2, 0, 3], vec![3, 2, 0], vec![0, 3, 2], vec![2, 3, 0, 2]]);
     // scale: many axes and long axes (array positions stay exact in f64 far beyond these sizes)
     let n_grid = shp.len();
     shp.extend(crate::enumerate::scale_shapes(tier.pick(10, 11)).into_iter().filter(|s| s.iter().product::<usize>() <= 70_000));
     let n_scale = shp.len() - n_grid;
     rep.rule = format!(
-        "all shapes with 1..{max_d} axes and lengths 1..{max_len} (thorough: plus 1..4 axes with lengths up to 8), plus {n_scale} shapes beyond that grid: every shape over lengths {{1,2}} with 6..10 (thorough 11) axes, 3^7, (2,3)^4, and axes of 255..65 537 entries ({} shapes in total), array filled with its flat position; per shape: every index of the box [0..len+1]^d, every (axis 0..d+1, position 0..len+1), every iterator stepped through all histories next^j.len.next.. continued {PAST_END} calls past exhaustion, and through the histories next^j.nth(k).len.size_hint.next.len, next^j.count, next^j.last for j and k on their boundaries (0, 1, last, one and two past the end); non-trivial = a view of a >=3-axis array or an iterator history continued past exhaustion (counted per iterator instance)",
+        "all shapes with 1..{max_d} axes and lengths 1..{max_len} (thorough: plus 1..4 axes with lengths up to 8), nine shapes with an axis of length zero, plus {n_scale} shapes beyond that grid: every shape over lengths {{1,2}} with 6..10 (thorough 11) axes, 3^7, (2,3)^4, and axes of 255..65 537 entries ({} shapes in total), array filled with its flat position; per shape: every index of the box [0..len+1]^d, every (axis 0..d+1, position 0..len+1), every iterator stepped through all histories next^j.len.next.. continued {PAST_END} calls past exhaustion, and through the histories next^j.nth(k).len.size_hint.next.len, next^j.count, next^j.last for j and k on their boundaries (0, 1, last, one and two past the end); non-trivial = a view of a >=3-axis array or an iterator history continued past exhaustion (counted per iterator instance)",
         shp.len()
     );
     // arrays with 2^32 and more elements (zero-sized elements, so no memory is needed): the ends of
@@ -932,7 +956,7 @@ pub fn run(tier: Tier) -> i32 {
             name: "lib: constructors, mutable accessors, indexing operators".into(),
             evaluations: ashapes.len() as u64,
             nontrivial: ashapes.len() as u64,
-            note: format!("{} shapes with 1..4 axes of lengths 1..4: new / from_iter / from_element / from_zeros (shape as Vec, Shape, array, usize) and their count errors, Display of the shape, Index / IndexMut / get_mut / iter_mut / as_mut_slice against flat positions for every index, out-of-range get_mut = None and panicking operators, index_axis against get_axis for every (axis, position), sums of arrays with negative / infinite / NaN entries against adding the views, the array without axes left by summing the only axis, Scs::new / from_range / from_vec / from_zeros / Index / IndexMut / inner_mut", ashapes.len()),
+            note: format!("{} shapes with 1..4 axes of lengths 1..4: new / from_iter / from_element / from_zeros (shape as Vec, Shape, array, usize) and their count errors, Display of the shape, Index / IndexMut / get_mut / iter_mut / as_mut_slice against flat positions for every index, out-of-range get_mut = None and panicking operators, index_axis against get_axis for every (axis, position), get / get_mut / get_axis with coordinates of 2^31 .. the maximum, sums of arrays with negative / infinite / NaN / tiny entries against adding the views, the array without axes left by summing the only axis, Scs::new / from_range / from_vec / from_zeros / Index / IndexMut / inner_mut", ashapes.len()),
             exhaustive: true,
             extra: vec![],
         });
@@ -970,7 +994,15 @@ pub fn run(tier: Tier) -> i32 {
             extra: vec![],
         });
     }
-    let results = par_each(&shp, |s| check_shape(s));
+    // (a panic of the subject in a place the per-call guards do not cover - an iterator constructor,
+    // a view accessor - is a violation for that shape, not a failure of the explorer)
+    let results = par_each(&shp, |s| {
+        catch(|| check_shape(s)).unwrap_or_else(|p| {
+            let mut r = ShapeResult::default();
+            r.v(s, &format!("panic-outside-guards|{}", panic_class(&p)), format!("shape {s:?}: the array interface panicked: {p}"), J::Null);
+            r
+        })
+    });
     let mut evals = 0;
     let mut nontrivial = 0;
     for (s, r) in shp.iter().zip(results) {
@@ -1042,6 +1074,8 @@ pub fn replay(case: &J) -> Option<Vec<String>> {
     if shape.iter().product::<usize>() > 100_000 {
         return None;
     }
-    let r = check_shape(&shape);
-    Some(r.viols.into_iter().map(|(k, w, _)| format!("{k} :: {w}")).collect())
+    Some(match catch(|| check_shape(&shape)) {
+        Ok(r) => r.viols.into_iter().map(|(k, w, _)| format!("{k} :: {w}")).collect(),
+        Err(p) => vec![format!("C19|lib|panic-outside-guards :: {p}")],
+    })
 }
